@@ -885,6 +885,11 @@ _router_entry("C12",
     extra_trust=["parameter: strings.Replacer (modelled as leftmost, first-listed-key replacement and differentially checked); "
                  "bind names are brace-free in generated cases because Go's map order makes colliding keys non-deterministic"])
 
+# obligations about the constants regenerated from the source (translator/constfacts*.go → Gen/ConstFacts.lean)
+for _pid in ("C02", "C08", "C11", "C12", "C13", "C14", "C15", "C16", "C17", "C18"):
+    PROPS[_pid]["props_modules"] = PROPS[_pid]["props_modules"] + ["Flamego.Props.ConstFacts." + _pid]
+PROPS["C01"]["props_modules"] = PROPS["C01"]["props_modules"] + ["Flamego.Props.ConstFacts.C02"]
+
 HOOK_COMMITS = ["a5cf397"]  # /repo commit adding verif_export.go (//go:build verif)
 
 _ALL = ['C01', 'C02', 'C03', 'C04', 'C05', 'C06', 'C07', 'C08', 'C09', 'C10', 'C11', 'C12', 'C13', 'C14', 'C15', 'C16', 'C17', 'C18']
